@@ -1998,6 +1998,10 @@ class Tensor:
         self.data.shape = newshape
         self.data.shape = old_shape
 
+        # as for any other in-place operation on `self`: the gradient (and stale
+        # view info) that `self` holds from an earlier backward pass goes first
+        self.null_grad(_clear_view_info=True)
+
         # create placeholders for self and all of its view-children
         graph = _dup.DuplicatingGraph(self)
         # need to iterate over all nodes now before we tinker
